@@ -418,7 +418,7 @@ def judge_twin(ctx, c, entry, r):
         return 'bad'
     if r.get('status') == 'accepted':
         return 'ok'
-    if r.get('engine') and entry in ('gvc', 'gvd'):
+    if r.get('engine') and entry in ('gvc', 'gvd', 'biogeme_weight'):
         return 'numeric'          # a numerical failure of the evaluation, not a refusal of the specification
     ctx.violation(key, f'a specification without fault is rejected by {entry} ({r.get("exc")})', wit, 'accepted', r)
     return 'bad'
